@@ -136,11 +136,19 @@ class SeriesLog:
             return
         if any(not R.tp_is_integral(x) for x in list(pts) + anchors):
             return self.finish_decimal(complete, anchors, d0, nominal0)
-        for p in pts:
-            if not R.tp_valid(mode, p):
-                return
         if any((x._hour_of_day == 24 and nominal0) for x in anchors):
             return      # (24:00 anchors: exact intervals only, R2c)
+        if not all(R.tp_valid(mode, x) for x in anchors):
+            return      # (anchors that are no dates of the active mode)
+        for p in pts:
+            if not R.tp_valid(mode, p):
+                ctx.violation(
+                    "series.invalid-point", "recurrence %s yielded %r, which "
+                    "is not a date-time of the %s calendar (points %s)" % (
+                        _rec_key(rec), R.tp_key(p), mode,
+                        [R.tp_key(q) for q in pts[:5]]),
+                    rec_id_is_case=ctx.case_rec_id == id(rec))
+                return
         ctx.ev("series.checked")
         is_case = ctx.case_rec_id == id(rec)
         n = rec._repetitions
@@ -570,7 +578,13 @@ def workload(ctx, repo):
         stride = 4 if ctx.tier == "quick" else 1
         for desc in recgen.clamp_descs(mode):
             j += 1
-            if (j + ctx.seed) % stride or not ctx.mine(j // stride):
+            a = desc.get("start") or desc.get("end")
+            must = "week_of_year" in a and "years" in desc["dur"] and \
+                desc["reps"] is None
+            if must:
+                if not ctx.mine(j):
+                    continue
+            elif (j + ctx.seed) % stride or not ctx.mine(j // stride):
                 continue
             case = {"op": "iterate", "desc": desc}
             ctx.case = case
